@@ -424,7 +424,7 @@ fn main() {
         recp(&mut buf, max_len, &mut rep);
         for s in ["-->", "--!>", "a-->b", "x--!>y", "->", ">", "</p>", "\"><b", "a b", "caf\u{e9}", "--", "<!--", "]]>", "&quot;"] { check_payload(s.as_bytes(), &mut rep); }
         println!("{{\"property\":{:?},\"cases\":{},\"alphabet\":{:?},\"exhaustive_len\":{},\"seed_documents\":{},\"max_cuts\":{},\"violations\":[{}]}}",
-            rep.prop, rep.cases, String::from_utf8_lossy(PAYLOAD_ALPHABET), max_len, 14, 0, rep.violations.join(","));
+            rep.prop, rep.cases, String::from_utf8_lossy(PAYLOAD_ALPHABET).replace('\x0c', "\u{240c}"), max_len, 14, 0, rep.violations.join(","));
         std::process::exit(if rep.violations.is_empty() { 0 } else { 1 });
     }
     rec(&mut buf, exhaustive_len, &prop, max_cuts, &mut rep);
